@@ -939,8 +939,9 @@ HandleTimeoutOrder(cfg, w, id) ==
                        mu == o.amount * Mega - o.size * rep2 * o.dur
                        refund == mu \div Mega
                        w1 == dropUndone(r.w)
-                       canPay == refund > 0 /\ HasPay(w1, o.owner) /\ BalOf(w1, "m_market") >= refund
-                       w2 == IF canPay THEN Send(w1, "m_market", PayOf(w1, o.owner), refund) ELSE w1
+                       payDid == IF o.paydid # "" THEN o.paydid ELSE o.owner      \* whoever paid for the order
+                       canPay == refund > 0 /\ HasPay(w1, payDid) /\ BalOf(w1, "m_market") >= refund
+                       w2 == IF canPay THEN Send(w1, "m_market", PayOf(w1, payDid), refund) ELSE w1
                    IN SetOrder(w2, [o EXCEPT !.replica = rep2, !.shards = done, !.amount = IF refund > 0 THEN @ - refund ELSE @])
            ELSE TimeoutAdd(r.w, w.h + o.timeout, o.id)
        ELSE
